@@ -8,7 +8,7 @@ PROPERTY = "C02"
 
 META = {
     "bounds": {
-        "quick": {"sign": "all secrets d in [1,N-1] (both key parities), all 32-byte messages and aux values; both nonce parities; cold and warm tag cache",
+        "quick": {"sign": "all secrets d in [1,N-1] (both key parities), all 32-byte messages and aux values; both nonce parities; cold and warm tag cache; compressed and uncompressed key objects; a second signing on the same key object after an arbitrary first one",
                   "verify": "key = d*G for any d in [0,N-1] incl. infinity, R = any abstract point incl. infinity, s in [0,2^256), any 32-byte message",
                   "codec": "all 32-byte s for the s >= N rejection (real N); x-only lift on toy fields p in {11,19,23,43} with the full 32-byte input symbolic"},
         "thorough": {"codec": "toy fields: all primes p = 3 mod 4 up to 251"}},
@@ -66,7 +66,7 @@ def spec_sign(e, d, P_pt, msg, aux):
 
 
 @with_env()
-def _sign_path(e, warm):
+def _sign_path(e, warm, compressed=True, second=False):
     pecc = e.pecc
     phash = loader.load("phash")
     phash.TAG_HASH_CACHE.clear()
@@ -78,8 +78,18 @@ def _sign_path(e, warm):
     aux = SBytes.sym("aux", 32)
 
     def wit(env):
-        return {"d": env["d"], "msg": bytes_env(env, "msg", 32).hex(), "aux": bytes_env(env, "aux", 32).hex(), "warm": warm}
-    pk = pecc.PrivateKey(d)
+        w = {"d": env["d"], "msg": bytes_env(env, "msg", 32).hex(), "aux": bytes_env(env, "aux", 32).hex(), "warm": warm,
+             "compressed": compressed}
+        if second:
+            w["first"] = [bytes_env(env, "msg0", 32).hex(), bytes_env(env, "aux0", 32).hex()]
+        return w
+    pk = pecc.PrivateKey(d, compressed=compressed)
+    if second:
+        # history on one key object: an earlier signing with other message / aux must not influence this one
+        try:
+            pk.sign_schnorr(SBytes.sym("msg0", 32), SBytes.sym("aux0", 32))
+        except Exception:
+            pass
     try:
         sig = pk.sign_schnorr(msg, aux)
         out = sig.serialize()
@@ -102,7 +112,9 @@ def _sign_path(e, warm):
 
 
 def ob_sign():
-    runs = [sym_run(lambda: _sign_path(False), mode="int", timeout_ms=60000), sym_run(lambda: _sign_path(True), mode="int", timeout_ms=60000)]
+    runs = [sym_run(lambda: _sign_path(False), mode="int", timeout_ms=60000), sym_run(lambda: _sign_path(True), mode="int", timeout_ms=60000),
+            sym_run(lambda: _sign_path(False, compressed=False), mode="int", timeout_ms=60000),
+            sym_run(lambda: _sign_path(False, second=True), mode="int", timeout_ms=60000, max_paths=3000)]
     m = merge_runs(runs)
     if m["classes"].get("'ok'", 0) < 8:
         m["inconclusive"].append("reachability twin: fewer than 4 parity paths per cache state reached")
@@ -165,7 +177,12 @@ def replay_sign(w):
     phash.TAG_HASH_CACHE.clear()
     if w.get("warm"):
         phash.tagged_hash(b"TapTweak", b"\x00")
-    pk = pecc.PrivateKey(d)
+    pk = pecc.PrivateKey(d, compressed=w.get("compressed", True))
+    if w.get("first"):
+        try:
+            pk.sign_schnorr(bytes.fromhex(w["first"][0]), bytes.fromhex(w["first"][1]))
+        except Exception:
+            pass
     try:
         got = pk.sign_schnorr(msg, aux).serialize()
     except Exception as ex:
